@@ -700,17 +700,19 @@ def oracle_complex(inp, out, seed, trials=6):
             vo = eo.ev(out, {}, ())
         except (Skip, ZeroDivisionError, OverflowError):
             continue
+        hits = []
         for node, op, v in ei.sites:
             if abs(v.imag) > 1e-9 * max(1.0, abs(v)):
-                probs.append({"kind": "complex-comparison-accepted", "node": str(node)[:200],
-                              "operand": str(op)[:200], "operand_value": repr(v),
-                              "valuation": {str(k): repr(x) for k, x in val.vals.items()},
-                              "known_class": subtree_has(op, PARTIAL_FNS)})
-                break
-        else:
-            if not close(vi, vo):
-                probs.append({"kind": "value-changed", "input_value": repr(vi), "output_value": repr(vo),
-                              "valuation": {str(k): repr(x) for k, x in val.vals.items()}, "known_class": False})
+                hits.append({"kind": "complex-comparison-accepted", "node": str(node)[:200],
+                             "operand": str(op)[:200], "operand_value": repr(v),
+                             "valuation": {str(k): repr(x) for k, x in val.vals.items()},
+                             "known_class": subtree_has(op, PARTIAL_FNS)})
+        if hits:
+            # prefer a site that is not explained by the known finding (ln/acos/asin/Bessel typed real)
+            probs.append(next((h for h in hits if not h["known_class"]), hits[0]))
+        elif not close(vi, vo):
+            probs.append({"kind": "value-changed", "input_value": repr(vi), "output_value": repr(vo),
+                          "valuation": {str(k): repr(x) for k, x in val.vals.items()}, "known_class": False})
         if probs:
             break
     return probs
